@@ -17,9 +17,77 @@ def _pre(reject_ids):
     return preprocessor
 
 
+def _backlog_stream(case, obs):
+    """stream() through a server whose single slot is taken for 0.5 s per request, with a 0.15 s stream timeout: the submission of the
+    second element fails with ServerBacklogFull on both sides; what the consumer sees (outputs, then how it ends) must be the same."""
+    from mpservice.mpserver import AsyncServer, Server, ThreadServlet
+    from vlib.srvtargets import TagWorker
+
+    items = [('tok', 0, i, (('A', 'sleep', 0.5),)) for i in range(4)]
+    pre = (lambda x: x) if case['preproc'] else None
+    skw = dict(return_x=case['return_x'], return_exceptions=case['return_exceptions'], timeout=0.15)
+
+    def shape(out, term):
+        def n(z):
+            z = norm_exc(z)
+            return _strip_wait(z)
+        return [n(z) for z in out], n(term)
+
+    def sync_run():
+        out, term = [], ('END',)
+        with Server(ThreadServlet(TagWorker, tag='A', num_threads=1), capacity=1) as s:
+            try:
+                for z in s.stream(iter(items), preprocessor=pre, **skw):
+                    out.append(z)
+            except Exception as e:  # noqa: BLE001
+                term = ('RAISED', e)
+        return shape(out, term)
+
+    async def async_run():
+        out, term = [], ('END',)
+        async with AsyncServer(ThreadServlet(TagWorker, tag='A', num_threads=1), capacity=1) as s:
+            async def src():
+                for x in items:
+                    yield x
+            try:
+                async for z in s.stream(src(), preprocessor=pre, **skw):
+                    out.append(z)
+            except Exception as e:  # noqa: BLE001
+                term = ('RAISED', e)
+        return shape(out, term)
+
+    viol = []
+    try:
+        rs = watch.run_bounded(sync_run, 40, 'Server.stream with failing submission')
+        ra = watch.run_bounded(lambda: asyncio.run(async_run()), 40, 'AsyncServer.stream with failing submission')
+    except watch.Hang as h:
+        viol.append({'mech': 'servers/hang', 'msg': h.what, 'stacks': h.stacks})
+        return {'violations': viol, 'obs': obs, 'exit_after': True}
+    obs['pairs'] += 1
+    obs['server_pairs'] = 1
+    obs['submission_failure_pairs'] = 1
+    obs['outputs_compared'] += len(rs[0]) + 1
+    if rs != ra:
+        viol.append({'mech': 'AsyncServer.stream/differs-from-Server.stream/submission-fails', 'msg': f'sync {rs!r}'[:500] + f' vs async {ra!r}'[:500]})
+    return {'violations': viol, 'obs': obs, 'sigs': [hash(('backlog-stream', case['preproc'], case['return_x'], case['return_exceptions'])) & 0xFFFFFFFFFFFF], 'nontrivial': True,
+            'sample': {'kind': 'servers/backlog-stream', 'preprocessor': case['preproc'], 'return_exceptions': case['return_exceptions'], 'sync': repr(rs)[:200]}}
+
+
+def _strip_wait(z):
+    # ServerBacklogFull(n, seconds waited): the wait is a measurement
+    if isinstance(z, tuple) and len(z) == 3 and z[0] == 'EXC' and z[1] == 'ServerBacklogFull':
+        return ('EXC', 'ServerBacklogFull')
+    if isinstance(z, (tuple, list)):
+        return type(z)(_strip_wait(a) for a in z)
+    return z
+
+
 def run(case, obs):
     from mpservice.mpserver import AsyncServer, SequentialServlet, Server, ThreadServlet
     from vlib.srvtargets import TagWorker
+
+    if case.get('backlog_stream'):
+        return _backlog_stream(case, obs)
 
     rng = random.Random(case['seed'])
     n = case['n']
